@@ -95,7 +95,10 @@ def c03_cli(ctx, res, entries, limit):
             body, halted = program_output(r.out)
             ref_out = e["output"].encode("utf-8")
             # the HALT banner starts with a newline of its own: accept it attached to either side
-            if body not in (ref_out, ref_out + b"\n") and not (halted and body + b"\n" == ref_out):
+            # ... and blanks printed last by the program cannot be told from the indentation of the
+            # banner that follows them on the same line (L1 compares the untouched output tee)
+            b2, r2 = body.rstrip(b" "), ref_out.rstrip(b" ")
+            if b2 not in (r2, r2 + b"\n") and not (halted and b2 + b"\n" == r2) and body not in (ref_out, ref_out + b"\n"):
                 detail["program_output_seen"] = body.decode("utf-8", "replace")[-600:]
                 res.violate("C03/cli/stdout", "`lace run --minimal` prints different program output than the reference machine", detail)
 
